@@ -11,7 +11,7 @@ from .. import env, core, par
 PID = "C09"
 LEVEL = "exploration"
 RULE = ("Hypothesis-generated param-class shapes (1-4 fields over int, float, str, bool, Optional[int|float|str], str Enum, nested "
-        "param-class, Scalar, Prefixed, Instantiable (Module / ExternalModuleCall / PrimitiveCall valued) and Generator) and PAIRS of "
+        "param-class, Scalar, Prefixed, Instantiable (Module / ExternalModuleCall / PrimitiveCall valued), Generator, frozenset and tuple of small ints and digit strings) and PAIRS of "
         "value assignments biased toward near-collisions (strings with spaces, '=' and quotes, 'None' vs None, readable names of "
         "126..130 characters, 1 vs 1.0 vs 1e0, 1000*m vs 1*UNIT, 0.1+0.2 vs 0.3, equal nested instances built separately, and one-field 'nearest neighbour' variants: next float / 1e-13 relative, int +-1, a string with one more space or quote, a prefixed number differing in a far digit, the most alike other module), call forms "
         "(keywords / instance), call orders and patterns (direct, returned through a second generator, recursive, called inside "
@@ -75,7 +75,7 @@ class World:
         self.pool_gen = [g0, g1]
         dt = {"int": int, "float": float, "str": str, "bool": bool, "oint": typing.Optional[int], "ofloat": typing.Optional[float],
               "ostr": typing.Optional[str], "enum": Color, "nested": NP, "scalar": h.Scalar, "prefixed": h.Prefixed,
-              "module": h.Instantiable, "gen": h.Generator}
+              "module": h.Instantiable, "gen": h.Generator, "set": frozenset, "tuple": tuple}
         attrs = {name: h.Param(dtype=dt[code], desc=name) for name, code in case["fields"]}
         self.P = h.paramclass(type("P", (), attrs))
         self.codes = dict(case["fields"])
@@ -116,6 +116,10 @@ class World:
             return self.pool_mod[v["v"]]
         if t == "gen":
             return self.pool_gen[v["v"]]
+        if t == "set":
+            return frozenset(self.dec(None, m) for m in v["v"])
+        if t == "tuple":
+            return tuple(self.dec(None, m) for m in v["v"])
         raise ValueError(t)
 
     def values(self, vals):
@@ -495,7 +499,10 @@ def nontrivial(case, r):
 
 def strategies():
     from hypothesis import strategies as st
-    codes = ["int", "float", "str", "bool", "oint", "ofloat", "ostr", "enum", "nested", "scalar", "prefixed", "module", "gen"]
+    codes = ["int", "float", "str", "bool", "oint", "ofloat", "ostr", "enum", "nested", "scalar", "prefixed", "module", "gen", "set", "tuple"]
+    # members of set- and tuple-valued fields: ints and strings only (1 != "1" whatever the container), alike when rendered with str()
+    member = st.one_of(st.integers(-2, 3).map(lambda i: {"t": "int", "v": str(i)}),
+                       st.sampled_from(["1", "2", "-1", "a", "1, 2", "", "'1'", "[1]"]).map(lambda w: {"t": "str", "v": w}))
     tricky = st.text(alphabet="xyab =_'\"1", min_size=0, max_size=8)
     strs = st.one_of(tricky, st.sampled_from(["x", "x b=y", "y", "z", "y b=z", "None", "", " ", "a=1", "'x'", "True", "1", "1.0"]),
                      st.integers(100, 125).map(lambda n: "q" * n))
@@ -534,6 +541,10 @@ def strategies():
             return st.one_of(st.integers(0, 8), st.integers(0, 13), st.integers(9, 13), st.integers(12, 13)).map(J("module"))
         if code == "gen":
             return st.integers(0, 1).map(J("gen"))
+        if code == "set":
+            return st.lists(member, max_size=3, unique_by=lambda m: (m["t"], m["v"])).map(J("set"))
+        if code == "tuple":
+            return st.lists(member, max_size=3).map(J("tuple"))
         raise ValueError(code)
 
     def near(draw, code, v):
@@ -567,6 +578,22 @@ def strategies():
             return {"t": "nested", "v": {"x": v["v"]["x"], "s": v["v"]["s"] + " "}}
         if t == "module":
             return {"t": "module", "v": {0: 1, 1: 0, 2: 8, 8: 2, 3: 2, 4: 5, 5: 4, 6: 7, 7: 6, 9: 2, 10: 2, 11: 2, 12: 13, 13: 12}[v["v"]]}  # the most alike other pool entry
+        if t in ("set", "tuple") and v["v"]:
+            # one member swapped between the int and the string of the same digits (or the order of a tuple reversed)
+            ms = json.loads(json.dumps(v["v"]))
+            i = draw(st.integers(0, len(ms) - 1))
+            m = ms[i]
+            if t == "tuple" and len(ms) > 1 and ms != ms[::-1] and draw(st.booleans()):
+                return {"t": t, "v": ms[::-1]}
+            if m["t"] == "int":
+                ms[i] = {"t": "str", "v": m["v"]}
+            elif m["v"].lstrip("-").isdigit():
+                ms[i] = {"t": "int", "v": m["v"]}
+            else:
+                ms[i] = {"t": "str", "v": m["v"] + " "}
+            if t == "set" and len({(x["t"], x["v"]) for x in ms}) != len(ms):
+                return None
+            return {"t": t, "v": ms}
         return None
 
     @st.composite
